@@ -157,8 +157,13 @@ def install(pid, rec):
             a_, b_ = tok
             exp = {c: a_.get(c, 0.) - b_.get(c, 0.) for c in set(a_) | set(b_)}
             if any(v < 0 for v in exp.values()): REC.refuse('ambient: separate_out of more than is present (not judged)'); return
-            scale = max(F_of(a_), 1e-300)
-            bad, worst = ledger_diff(ledger(self), exp, rel=0., abs_=1e-9 * scale)
+            got = ledger(self)
+            EPS = 2.220446049250313e-16
+            bad = []; worst = 0.
+            for c in set(got) | set(exp):          # per chemical: 32 ulps of the magnitudes that entered the subtraction of that chemical (nan counts as a difference)
+                w = abs(a_.get(c, 0.)) + abs(b_.get(c, 0.)); d = abs(got.get(c, 0.) - exp.get(c, 0.))
+                if w and d == d: worst = max(worst, d / w)
+                if not d <= 32 * EPS * w: bad.append((c, got.get(c, 0.), exp.get(c, 0.)))
             REC.check(not bad, 'ambient:separate', 'remainder', f'{NODE[0]}: separate_out: remainder differs from before - other for {bad[:3]}', residual=worst, case=case())
             bb, _ = ledger_diff(ledger(other), b_, rel=0)
             REC.check(not bb, 'ambient:separate', 'other-changed', f'{NODE[0]}: separate_out changed the stream taken out: {bb[:3]}', case=case())
@@ -180,33 +185,74 @@ def install(pid, rec):
 
     # ------------------------------------------------------------------ C02 energy balance of mixing
     if pid == 'C02':
+        # independent reference (oracle audit 2, C02 item 1 / 5): enthalpy and heat-capacity flows from the chemicals' own models over the raw rows, for the ideal
+        # mixture without excess energies (other packages keep the reading through the stream); non-empty decided from the raw rows, not isempty()
+        from thermosteam.base.phase_handle import PhaseHandle
+        SA_ = sys.modules['thermosteam.base.sparse'].SparseArray
+
+        def rows_(s):
+            data = s.imol.data
+            if isinstance(data, SA_): return [(ph, {i: v for i, v in r.dct.items() if v}) for ph, r in zip(s.phases, data.rows)]
+            return [(s.phase, {i: v for i, v in data.dct.items() if v})]
+
+        def holds(s):
+            return any(row for _, row in rows_(s))
+
+        def ideal_(s):
+            m = s.mixture
+            return type(m).__name__ == 'IdealMixture' and not m.include_excess_energies
+
+        def ref_(s, what):
+            chems = s.chemicals.tuple; T, P = s.T, s.P
+            tot = sc = 0.
+            for ph, row in rows_(s):
+                for i, n in row.items():
+                    h = getattr(chems[i], what)
+                    if what == 'H': v = h(ph, T, P) if isinstance(h, PhaseHandle) else h(T, P)
+                    else: v = h(ph, T) if isinstance(h, PhaseHandle) else h(T)
+                    tot += n * v; sc += abs(n * v)
+            return tot, sc
+
+        def H_of(s, where):
+            """enthalpy flow used in the balance: the reference when the package is the ideal mixture (the reading is judged against it), else the reading"""
+            if not ideal_(s): REC.hit('ambient:not-ideal-mixture/reading-used'); return s.H
+            r, sc = ref_(s, 'H'); val = s.H
+            REC.check(abs(val - r) <= 1e-13 * sc + 1e-300, 'ambient:reading', 'H/' + where, f'{NODE[0]}: H of a stream ({where}) reads {val!r}; the molar-weighted sum of the chemicals\' own models over its rows is {r!r}',
+                      residual=abs(val - r) / sc if sc else None, case=case())
+            return r
+
+        def C_of(s):
+            return ref_(s, 'Cn')[0] if ideal_(s) else s.C
+
         def mix_pre(self, others, energy_balance=True, vle=False, Q=0., conserve_phases=False):
             if not energy_balance or vle or not isinstance(others, (list, tuple)) or not all(is_stream(o) for o in others): return SKIP
-            live_ = [o for o in others if not o.isempty()]
+            live_ = [o for o in others if holds(o)]
             if not live_: return SKIP
             if not isinstance(Q, (int, float)): return SKIP
-            return [o.H for o in live_], [o.P for o in live_], float(Q)
+            return [H_of(o, 'mix-inlet') for o in live_], [o.P for o in live_], float(Q)
 
         def mix_post(tok, out, self, others, energy_balance=True, vle=False, Q=0., conserve_phases=False):
             Hs, Ps, Q_ = tok
             Hin = sum(Hs) + Q_
-            C = abs(self.C) if self.C == self.C else 0.
-            if not C: return
-            res = abs(self.H - Hin)
-            REC.check(res <= 1e-5 * C, 'ambient:mix-enthalpy', 'sum', f'{NODE[0]}: mix_from: H out {self.H!r} != sum of inlet H {sum(Hs)!r} + Q {Q_!r} ({res / C:.3g} K*C)', residual=res / C, case=case())
+            C = abs(C_of(self))
+            if not (C == C) or not C:
+                REC.check(False, 'ambient:mix-enthalpy', 'nothing-or-nan-in-the-receiver', f'{NODE[0]}: mix_from of non-empty inlets: the heat-capacity flow of the receiver is {C!r}', case=case()); return
+            Hout = H_of(self, 'mix-receiver')
+            res = abs(Hout - Hin)
+            REC.check(res <= 1e-5 * C, 'ambient:mix-enthalpy', 'sum', f'{NODE[0]}: mix_from: H out {Hout!r} != sum of inlet H {sum(Hs)!r} + Q {Q_!r} ({res / C:.3g} K*C)', residual=res / C, case=case())
             REC.check(self.P == min(Ps), 'ambient:mix-pressure', 'min', f'{NODE[0]}: mix_from: P out {self.P!r} != lowest non-empty inlet pressure {min(Ps)!r}', case=case())
             if len(Hs) >= 2: REC.mark_nontrivial(f'{NODE[0]}:mixH:{len(REC.nontrivial)}')
         for cls in streams:
             if 'mix_from' in cls.__dict__: wrap(cls, 'mix_from', mix_pre, mix_post)
 
         def H_pre(self, H):
-            if self.isempty(): return SKIP
+            if not holds(self): return SKIP
             return float(H)
 
         def H_post(tok, out, self, H):
-            C = abs(self.C)
+            C = abs(C_of(self))
             if not C or C != C: return
-            back = self.H
+            back = H_of(self, 'after-assignment')
             REC.check(abs(back - tok) <= 1e-5 * C, 'ambient:set-H', 'read-back', f'{NODE[0]}: H = {tok!r} then reading gives {back!r} ({abs(back - tok) / C:.3g} K*C)', residual=abs(back - tok) / C, case=case())
             REC.mark_nontrivial(f'{NODE[0]}:setH:{len(REC.nontrivial)}')
         for cls in streams:
@@ -364,20 +410,22 @@ def install(pid, rec):
             Q = k.get('Q', a[1] if len(a) > 1 else 0.)
             if not isinstance(Q, (int, float)): return SKIP
             twin = stream.copy()
-            try: self(twin)
-            except Exception: twin = None
-            return stream.Hnet, float(Q or 0.), (None if twin is None else twin.imol.data.to_array().copy())
+            try: self(twin); reacted = twin.imol.data.to_array().copy()
+            except Exception as e: reacted = ('raised', type(e).__name__)
+            return stream.Hnet, float(Q or 0.), reacted
 
         def ad_post(tok, out, self, stream, *a, **k):
             H0, Q, reacted = tok
-            if reacted is not None:
+            if isinstance(reacted, tuple):
+                REC.check(False, 'ambient:adiabatic', 'twin-raised-but-adiabatic-returned', f'{NODE[0]}: the plain call on a copy raised {reacted[1]} but adiabatic_reaction on the stream returned normally', case=case())
+            else:
                 got = stream.imol.data.to_array()
                 sc = max(float(np.abs(reacted).max()), 1e-300)
                 REC.check(got.shape == reacted.shape and bool((np.abs(got - reacted) <= 1e-11 * sc).all()), 'ambient:adiabatic', 'composition', f'{NODE[0]}: adiabatic_reaction left flows {got.tolist()} but the plain call on a copy gives {reacted.tolist()}', case=case())
             C = abs(stream.C)
             if not C or C != C: return
             res = abs(stream.Hnet - (H0 + Q))
-            REC.check(res <= 1e-4 * C, 'ambient:adiabatic', 'Hnet', f'{NODE[0]}: adiabatic_reaction: Hnet after {stream.Hnet!r} != Hnet before {H0!r} + Q {Q!r} ({res / C:.3g} K*C)', residual=res / C, case=case())
+            REC.check(res <= 2e-6 * C + 1e-12 * abs(H0), 'ambient:adiabatic', 'Hnet', f'{NODE[0]}: adiabatic_reaction: Hnet after {stream.Hnet!r} != Hnet before {H0!r} + Q {Q!r} ({res / C:.3g} K*C)', residual=res / C, case=case())
             REC.mark_nontrivial(f'{NODE[0]}:adiabatic:{len(REC.nontrivial)}')
         for cls in (R.Reaction, R.ReactionSet, R.ParallelReaction, R.SeriesReaction, R.ReactionSystem):
             if 'adiabatic_reaction' in cls.__dict__: wrap(cls, 'adiabatic_reaction', ad_pre, ad_post)
@@ -603,10 +651,14 @@ def install(pid, rec):
         # the solvers call gamma.f(x, T, *gamma.args), not the object: with the JIT disabled the class attribute `f` resolves to these module functions
         def f_pre(x, T, *a, **k):
             if not isinstance(x, np.ndarray): return SKIP
-            return x.copy()
+            return (x.copy(), [np.array(v, copy=True) if isinstance(v, np.ndarray) else None for v in a])
 
         def mk_f_post(nm):
             def f_post(tok, out, x, T, *a, **k):
+                tok, a0 = tok
+                # a = (interactions, group_psis, group_mask, qs, rs, Qs, chemgroups, chem_Qfractions, index); group_psis (a[1]) is the documented scratch array
+                same = len(a) == len(a0) and all(q is None or np.array_equal(p_, q, equal_nan=True) for i, (p_, q) in enumerate(zip(a, a0)) if i != 1)
+                REC.check(same, 'ambient:side-effect', nm + '/model-arrays', f'{NODE[0]}: {nm}(x, T, *args) modified the parameter arrays of the model object', case=case())
                 REC.check(np.array_equal(x, tok, equal_nan=True), 'ambient:side-effect', nm, f'{NODE[0]}: {nm}(x, T, ...) modified the caller\'s composition array: {tok.tolist()} -> {x.tolist()}', case=case())
                 if tok.size >= 2: REC.mark_nontrivial(f'{NODE[0]}:{nm}:{len(REC.nontrivial)}')
             return f_post
